@@ -58,15 +58,17 @@ pub fn compare(refs: &[RT], got: &[Snap], n_out: usize, tol: Tol) -> Result<(), 
 }
 
 fn sig(case: &Case, what: &str) -> String {
-    if what == "wrong values" && !case.vclass.is_empty() {
-        if case.class.is_empty() {
-            format!("{}: {} [{}]", case.op, what, case.vclass)
-        } else {
-            format!("{}: {} [{}; {}]", case.op, what, case.class, case.vclass)
-        }
-    } else {
-        format!("{}: {} [{}]", case.op, what, case.class)
+    // `class` holds the shape/attribute features, `vclass` the value features
+    // (element-type family unless the generator says otherwise); value
+    // features only discriminate value mismatches.
+    let mut parts: Vec<&str> = Vec::new();
+    if !case.class.is_empty() {
+        parts.push(&case.class);
     }
+    if what == "wrong values" && !case.vclass.is_empty() {
+        parts.push(&case.vclass);
+    }
+    format!("{}: {} [{}]", case.op, what, parts.join("; "))
 }
 
 pub fn c15_case(entry: &Entry, case: &Case, rep: &mut Report) {
@@ -78,8 +80,15 @@ pub fn c15_case(entry: &Entry, case: &Case, rep: &mut Report) {
     }
     let reference = match refops::eval(case) {
         Ok(r) => r,
-        Err(RefErr::Undefined(_)) => {
+        Err(RefErr::Undefined(why)) => {
             rep.stat(op, "ref_undefined_by_spec");
+            // no expectation; a panic is still worth an observation
+            if let Err(f) = subject::load_and_run(case, InputMode::Spec) {
+                if classify(&f) == FailClass::Panic {
+                    rep.stat(op, "panic_where_undefined");
+                    rep.observe(format!("{op}: panic on a case outside the claim ({}): {}", generalize(&why), generalize(&f.text())));
+                }
+            }
             return;
         }
         Err(RefErr::Invalid(_)) => {
@@ -303,6 +312,7 @@ pub fn c12_case(_entry: &Entry, case: &Case, rep: &mut Report) {
     };
     let get_in = |k: u32| in_types.get(k as usize).copied().flatten();
     let mut any_checked = false;
+    let mut op_level_violation = false;
     for (i, g) in got.iter().enumerate() {
         let Some(rule) = rules.get(i) else {
             rep.stat(op, "output_without_rule");
@@ -329,6 +339,7 @@ pub fn c12_case(_entry: &Entry, case: &Case, rep: &mut Report) {
         let actual = snap_vt(g);
         rep.outcome_hashes.insert(vp_core::fnv(format!("{op}/{i}/{rule_name}/{}", vt_name(actual)).as_bytes()));
         if predicted != actual {
+            op_level_violation = true;
             let in_names: Vec<String> = in_types.iter().map(|t| t.map(vt_name).unwrap_or_else(|| "-".into())).collect();
             rep.violation(
                 format!("{op}: output {i} has type {} but declared rule {rule_name} predicts {} [inputs {}]", vt_name(actual), vt_name(predicted), in_names.join(",")),
@@ -345,7 +356,8 @@ pub fn c12_case(_entry: &Entry, case: &Case, rep: &mut Report) {
             for (i, id) in s.out_ids.iter().enumerate() {
                 if let (Some(t), Some(g)) = (res.types.get(id), got.get(i)) {
                     rep.stat(op, "graph_level_labels_checked");
-                    if *t != snap_vt(g) {
+                    // the operator-level check already reported a wrong rule: same root cause
+                    if *t != snap_vt(g) && !op_level_violation {
                         rep.violation(
                             format!("{op}: infer_shapes labels output {i} as {} but the run produces {}", vt_name(*t), vt_name(snap_vt(g))),
                             json!({"case": case.to_json()}),
